@@ -871,24 +871,16 @@ func (n *IncludeNode) Render(w io.Writer, ctx *RenderContext) error {
 
 	// Need a new context for 'only' mode, sandboxed mode, or with variables
 	var includeCtx *RenderContext
-	if !n.only && !n.sandboxed {
-		// 'with' variables are visible to the included template only
+	if !n.only {
+		// 'with' variables are visible to the included template only; everything the
+		// including template can read - in whichever enclosing context it is bound -
+		// stays readable, sandboxed or not
 		includeCtx = ctx.Clone()
 		includeCtx.lastLoadedTemplate = template
 		defer includeCtx.Release()
 	} else {
-		var contextVars map[string]interface{}
-
-		if n.only {
-			// Only mode - create empty context
-			contextVars = make(map[string]interface{}, len(n.variables))
-		} else {
-			// For sandboxed mode but not 'only' mode, copy the parent context
-			contextVars = make(map[string]interface{}, len(ctx.context)+len(n.variables))
-			for k, v := range ctx.context {
-				contextVars[k] = v
-			}
-		}
+		// Only mode - create empty context
+		contextVars := make(map[string]interface{}, len(n.variables))
 
 		// Create a new context
 		includeCtx = NewRenderContext(ctx.env, contextVars, ctx.engine)
@@ -898,15 +890,15 @@ func (n *IncludeNode) Render(w io.Writer, ctx *RenderContext) error {
 		// A sandboxed context stays sandboxed in everything it includes
 		includeCtx.sandboxed = ctx.sandboxed
 		includeCtx.rootTemplate = ctx.rootTemplate
+	}
 
-		// If sandboxed, enable sandbox mode
-		if n.sandboxed {
-			includeCtx.sandboxed = true
+	// If sandboxed, enable sandbox mode
+	if n.sandboxed {
+		includeCtx.sandboxed = true
 
-			// Check if a security policy is defined
-			if ctx.env.securityPolicy == nil {
-				return fmt.Errorf("cannot use sandboxed include without a security policy")
-			}
+		// Check if a security policy is defined
+		if ctx.env.securityPolicy == nil {
+			return fmt.Errorf("cannot use sandboxed include without a security policy")
 		}
 	}
 
